@@ -283,6 +283,7 @@ func Cases() ([]Case, error) {
 	}
 	if Clients {
 		out = append(out, clientCases(sch)...)
+		out = append(out, saslCases()...)
 	}
 	return out, nil
 }
